@@ -779,6 +779,7 @@ func (fx *FnExec) execInstr(st *State, in ssa.Instruction) {
 			leaves = fx.asLeaves(st, vv, loc.T)
 		}
 		e.storeLoc(st, loc, leaves)
+		fx.raiseCondFlag(st, loc)
 		fx.checkOnAssign(st, in, loc)
 		if sl, isSlice := loc.T.Underlying().(*types.Slice); isSlice && loc.Kind == LField && fx.fieldClass(loc) == "immutable" && len(leaves) == 3 {
 			// snapshot the contents into the immutable-content heap
@@ -1051,6 +1052,10 @@ func (fx *FnExec) execUnOp(st *State, in *ssa.UnOp) {
 		// function values: remember origin for dyn contracts
 		if _, ok := in.Type().Underlying().(*types.Signature); ok {
 			switch loc.Kind {
+			case LLocal:
+				if loc.Alloc != nil && loc.Alloc.Comment != "" {
+					v.Origin = "local:" + fnKey(fx.fn) + "." + loc.Alloc.Comment
+				}
 			case LGlobal:
 				v.Origin = "global:" + loc.G.Pkg.Pkg.Path() + "." + loc.G.Name()
 			case LField:
@@ -1711,6 +1716,47 @@ func (fx *FnExec) checkOnAssign(st *State, in *ssa.Store, loc *Loc) {
 		env := fx.specEnv(st, fx.oldFor(st), nil)
 		for i, nt := range env.evalSplit(oa.C.Expr) {
 			e.addObl("contract", fmt.Sprintf("onassign:%s%s%s", a.Comment, oa.C.labelStr(), partName(nt, i)), fx.clauseTags(oa.C), st, nt.term, in.Pos())
+		}
+	}
+}
+
+func (e *Engine) keyCondFlag(class string) string {
+	k := "X|condflag|" + class
+	if _, ok := e.heapInfo[k]; !ok {
+		e.regHeap(k, SBool, "condflag_"+class[strings.LastIndex(class, "/")+1:], "X", nil)
+	}
+	return k
+}
+
+// raiseCondFlag: monitor protocol: a store to a field guarded by a lock that has a condition variable changes what
+// waiters wait for; the flag must be lowered by a Broadcast before the function returns (no lost wake-up).
+func (fx *FnExec) raiseCondFlag(st *State, loc *Loc) {
+	e := fx.e
+	if loc.Kind != LField || e.suppress > 0 {
+		return
+	}
+	cls := fx.fieldClass(loc)
+	if cls != "guarded_by" && cls != "write_once" {
+		return
+	}
+	n, ok := loc.S.(*types.Named)
+	if !ok || n.Obj().Pkg() == nil {
+		return
+	}
+	first := loc.Path
+	if i := strings.Index(first, "."); i >= 0 {
+		first = first[:i]
+	}
+	p := e.w.spec.Protects[n.Obj().Pkg().Path()+"."+n.Obj().Name()+"."+first]
+	if p == nil {
+		return
+	}
+	for _, lockClass := range e.w.spec.Conds {
+		if lockClass == p.Lock {
+			if _, fresh := e.refBirth[loc.Ref]; fresh {
+				return
+			}
+			st.heap[e.keyCondFlag(lockClass)] = "true"
 		}
 	}
 }
